@@ -3490,7 +3490,8 @@ def _run_unit(root, unit, contracts, seed=0, perturb=None):
                         if poly_diff and _is_inequality(c, _t):
                             continue      # an inequality leaves a Zariski-open set: a non-zero polynomial cannot vanish on all of it
                         cv_ |= _value_vars(c)
-                    if isinstance(la, VOpaque) and isinstance(lb, VOpaque) and (la.name != lb.name or len(la.args) != len(lb.args)):
+                    if isinstance(la, VOpaque) and isinstance(lb, VOpaque) and (la.name != lb.name or len(la.args) != len(lb.args)) \
+                            and "ite" not in (la.name, lb.name):        # an unresolved `ite` is a case split the other side does not make: structural
                         # two different uninterpreted terms (`affine(u(p), v(p))` vs `to_affine(p)`): whether they denote the same value can
                         # depend on ANYTHING the path says about their arguments, also on equalities that were applied as rewrites (the
                         # rewrite does not carry the meaning of the functions).  Definite only if the path is silent about them.
